@@ -679,6 +679,33 @@ class Sub:
 _Sub = Sub
 
 
+def debug_parity(ctx, R, anchors):
+    """What a function does to program state must not depend on debug assertions being compiled in: the transitive write
+    set and the set of crate functions reachable from each anchor are compared between the default extraction and one with
+    `-C debug-assertions=off` (a mutation inside `debug_assert!(..)` exists in one of them only)."""
+    try:
+        e0, e1 = ctx.eff('default'), ctx.eff('nodebug')
+        f0, f1 = ctx.facts('default'), ctx.facts('nodebug')
+    except Exception as ex_:
+        ctx.inconclusive(R, 'no extraction without debug assertions: %s' % str(ex_)[:200])
+        return
+    for k in anchors:
+        if k not in f0.bodies or k not in f1.bodies:
+            ctx.inconclusive(R, 'anchor not found in both configurations: ' + k)
+            continue
+        w0, w1 = set(e0.writes(k)), set(e1.writes(k))
+        r0 = {x for x in e0.reach(k) if '::{' not in x}
+        r1 = {x for x in e1.reach(k) if '::{' not in x}
+        where_ = '%s:%s' % (f0.bodies[k].file, f0.bodies[k].lo)
+        if w0 != w1 or r0 != r1:
+            only = sorted('%s.%s' % (a.rsplit('::', 1)[-1], fl) for a, fl in (w0 - w1)) + sorted(x.rsplit('::', 1)[-1] + '()' for x in (r0 - r1))
+            ctx.violation(R, k + ':debug-only-effect', '%s changes state only when debug assertions are compiled in (%s): a side effect '
+                          'sits inside debug_assert!/cfg(debug_assertions), so release builds behave differently' % (k, ', '.join(only[:6]) or 'differs'), where_)
+        else:
+            ctx.ok(R, '%s: same write set (%d fields) and same reachable crate functions (%d) with and without debug assertions' % (
+                k.rsplit('::', 1)[-1], len(w0), len(r0)), where_)
+
+
 ACCESSOR_TABLES = {
     'magic::get_king_moves': ['KING_MOVES'], 'magic::get_knight_moves': ['KNIGHT_MOVES'], 'magic::get_rank': ['RANKS'],
     'magic::get_file': ['FILES'], 'magic::get_adjacent_files': ['ADJACENT_FILES'], 'magic::get_rook_rays': ['RAYS', 'ROOK'],
